@@ -3,6 +3,9 @@
 remeshing of the daughters) is not encodable within reach; what is decided, on the real code from the LLVM IR in exact reals with z3:
   K1 find_edge_plane_intersection: a returned point lies on the plane and on the segment; 'no intersection' is returned only when the
      end points are not strictly on opposite sides of the plane (every edge/plane position, plane through an end point included);
+  K3 add_point_to_face + divide_faces on two triangles sharing a cut edge, with symbolic (distinct) node ids and every structure of the
+     cut (stored rotation of each face, which second edge is cut, insertion order): the six triangles tile the two cut triangles, keep
+     the orientation, share the new diagonals in opposite directions, and the shared cut edge stays shared;
   K2 map_points_to_xy_plane + map_points_to_division_plane as divide_cell composes them, for EVERY unit division axis (axis-aligned
      directions in both senses are separate paths or special points of the same formulas): the rotation is orthonormal and takes the
      axis to +z, in-plane distances of the interface points are preserved, the round trip restores the interface points, and points
@@ -154,6 +157,8 @@ def main(chk):
                     jobs.append((key + '/new point %d keeps its distance to interface point %d' % (j, i), pc, cl, tmo, 'map', 'new interface point displaced within the plane', K == 2))
             cl = S.band(S.band(S.cmp('eq', rest[0], S.const(11)), S.cmp('eq', rest[1], S.const(12))), S.cmp('eq', rest[2], S.const(13)))
             jobs.append((key + '/points that are not on the interface are not touched', pc, cl, tmo, 'map', 'non-interface point moved'))
+    # ---- K3: add_point_to_face + divide_faces on two triangles sharing the cut edge, symbolic ids ------------------------------------
+    k3(chk, ir, native, z, quick)
     chk.log('%d obligations' % len(jobs))
     outs = par.prove_all(z, jobs, procs=14)
     for job, (st, model, dt) in zip(jobs, outs):
@@ -174,6 +179,68 @@ def main(chk):
     chk.finish(level='other', explanation=(
         'Kernels of cell division from the LLVM IR in exact reals: edge/plane intersection (point on plane and segment; no missed crossing) and the map-to-xy-plane / map-back pair for every unit axis (orthonormal rotation taking the axis to +z, '
         'isometry on the interface, exact round trip, new z=0 points return into the division plane through the interface centroid). z3 decides each obligation per path; models are replayed natively.'))
+
+def k3(chk, ir, native, z, quick):
+    """ids are symbolic (distinct, mesh nodes below the threshold, cut points at or above it); the structure of the cut is enumerated:
+    rotation of each stored face, which second edge is cut in each face, order of insertion.  After divide_faces the six triangles must
+    tile the two original triangles: three distinct ids each, no directed edge twice, every interior directed edge has its opposite,
+    and the unmatched directed edges are exactly the original boundary with the cut points inserted (orientation preserved)."""
+    names = ['thr', 'a', 'b', 'c', 'd', 'P', 'Q', 'R']
+    V = [S.ivar(n, 64, 0, 2 ** 31 - 1) for n in names]
+    thr, a, b, c, d, P, Q, R = V
+    pre = [S.cmp('lt', x, thr) for x in (a, b, c, d)] + [S.cmp('ge', x, thr) for x in (P, Q, R)]
+    ids = [a, b, c, d, P, Q, R]
+    for i in range(7):
+        for j in range(i + 1, 7): pre.append(S.cmp('ne', ids[i], ids[j]))
+    def nm(v):
+        while isinstance(v, S.Node) and v.op == 'irew': v = v.args[0]
+        return v.args[0] if isinstance(v, S.Node) and v.op == 'ivar' else None
+    sess = api.Session(ir, mode='real')
+    # validation on concrete ids
+    sc = api.Session(ir, mode='ieee'); mism = 0; nval = 0
+    for r0 in range(3):
+        for r1 in range(3):
+            for e0 in (0, 1):
+                for e1 in (0, 1):
+                    for od in (0, 1):
+                        cfg = [r0, r1, e0, e1, od]
+                        for conc in ([4, 0, 1, 2, 3, 4, 5, 6], [10, 7, 3, 9, 0, 12, 10, 11]):
+                            r = sc.run('h_c09_split', [], conc + cfg); q = native.call('h_c09_split', [], conc + cfg)
+                            nval += 1
+                            if r.status != 'ok' or r.iout != q['i']: mism += 1
+                        ctl, res = sess.explore('h_c09_split', [], V + cfg, assumptions=pre, zctx=z, max_paths=20, branch_timeout_ms=5000)
+                        chk.paths += ctl.paths_done
+                        key = 'K3 add_point_to_face + divide_faces/rotations %d,%d second cut edges %s,%s %s' % (r0, r1, ('bc', 'ca')[e0], ('ad', 'db')[e1], ('shared point first', 'shared point last')[od])
+                        real = [(tr, pc, r) for (tr, pc, r) in res if getattr(r, 'status', None) != 'pathend']
+                        if len(real) != 1 or not ctl.exhausted or real[0][2].status != 'ok':
+                            chk.fail_closed.append(key + ': %d paths / %r' % (len(real), [getattr(x[2], 'error', None) for x in real][:2])); continue
+                        r = real[0][2]
+                        probs = []
+                        if r.iout[0] != 0: probs.append('exception class %r' % r.iout[0])
+                        else:
+                            nf = r.iout[1]; p_ = 2; faces = []
+                            for f in range(nf):
+                                k = r.iout[p_]; p_ += 1
+                                faces.append([nm(v) for v in r.iout[p_:p_ + k]]); p_ += k
+                            if nf != 6: probs.append('%d faces' % nf)
+                            de = {}
+                            for f in faces:
+                                if len(f) != 3 or None in f or len(set(f)) != 3: probs.append('face %r' % (f,)); continue
+                                for x, y in ((f[0], f[1]), (f[1], f[2]), (f[2], f[0])):
+                                    de[(x, y)] = de.get((x, y), 0) + 1
+                            if any(v > 1 for v in de.values()): probs.append('a directed edge appears twice: %r' % [e for e, v in de.items() if v > 1][:3])
+                            boundary = {e for e in de if (e[1], e[0]) not in de}
+                            exp = set()
+                            exp |= {('b', 'Q'), ('Q', 'c'), ('c', 'a')} if e0 == 0 else {('b', 'c'), ('c', 'Q'), ('Q', 'a')}
+                            exp |= {('a', 'R'), ('R', 'd'), ('d', 'b')} if e1 == 0 else {('a', 'd'), ('d', 'R'), ('R', 'b')}
+                            if boundary != exp: probs.append('boundary of the six triangles is %r, the cut pentagons have %r' % (sorted(boundary), sorted(exp)))
+                        chk.ob(key + '/six triangles tile the two cut triangles with the original orientation', 'proved' if not probs else 'violated', True, 0, {'problems': probs} if probs else None)
+                        chk.witnesses += 1
+                        if probs:
+                            q = native.call('h_c09_split', [], [4, 0, 1, 2, 3, 4, 5, 6] + cfg)
+                            chk.violation('C09/split/triangles do not tile the cut faces', '%s: %s; native (ids a..d = 0..3, P,Q,R = 4..6): %r' % (key, '; '.join(probs[:2]), q['i'][:26]), {'cfg': cfg, 'problems': probs, 'native': q['i']})
+    chk.validation['inputs'] += nval; chk.validation['mismatches'] += mism; chk.validation['programs'] += 1
+    chk.functions |= sess.functions_called | sc.functions_called
 
 def sum_(PT, k):
     r = S.ZERO
